@@ -24,6 +24,7 @@ LEVEL_TEXT = (
     "prefix is a runtime clause and is not decided."
     ' (R3) no exception handler in any function reachable from calibrate ends normally when its try-body runs repository code or a user-supplied callable (third-party-only bodies with a documented fallback are not batch faults).'
     ' A handler that re-raises around repository / user code raises the exception it caught; the round-robin position advances in update(), so a retried batch is run by the sampler whose turn it was (C09-R1).'
+    " Lazy evaluation is read where it happens: a bare map(...) is a generator, np.fromiter / list consume it at their own position (commit-region rule)."
 )
 TECHNIQUE = "CFG try/finally dominance rule + commit-region path query + exhaustive product of extracted thread summaries with injected exceptional exits"
 LEVEL_NOTE = ("Trusted base: as C10; faults are injected at the three user-code call sites of Calibrator.calibrate (sample, simulate_model, compute_loss), "
